@@ -142,8 +142,8 @@ Example C02_unlinked_last_link_example :
 Proof. vm_compute. auto. Qed.
 
 (* ---- directory handles: ReadDir(n) / Readdirnames(n) -------------------------------------------- *)
-(* From a freshly opened directory handle, successive ReadDir(n), n > 0, deliver batches of 1..n entries
-   whose concatenation is exactly the sorted listing, then io.EOF. *)
+(* From a freshly opened (or rewound) directory handle, successive ReadDir(n), n > 0, deliver batches of 1..n
+   entries whose concatenation is exactly the sorted listing, then io.EOF; the same for Readdirnames. *)
 Theorem C02_dir_batches : forall s v c ch m n f,
   get (f_heap s) c = Some (NDir ch m) -> 0 < n ->
   hd_name f <> [] -> hd_node f = Some c -> hd_dir_infos f = None ->
@@ -154,11 +154,34 @@ Proof. intros. eapply read_dir_batches; eassumption. Qed.
 
 Theorem C02_dir_batches_names : forall s v c ch m n f,
   get (f_heap s) c = Some (NDir ch m) -> 0 < n ->
-  hd_name f <> [] -> hd_node f = Some c -> hd_dir_names f = None ->
-  exists bs, readdirnames_all (S (S (length (dir_names ch)))) s v f n = (bs, Some (RNames [] (Some EG_EOF)))
-             /\ concat bs = dir_names ch
+  hd_name f <> [] -> hd_node f = Some c -> hd_dir_infos f = None ->
+  exists bs, readdirnames_all (S (S (length (dir_infos (f_heap s) ch)))) s v f n = (bs, Some (RNames [] (Some EG_EOF)))
+             /\ concat bs = map (@fi_name) (dir_infos (f_heap s) ch)
              /\ Forall (fun b => (0 < length b)%nat /\ Z.of_nat (length b) <= n) bs.
 Proof. intros. eapply readdirnames_batches; eassumption. Qed.
+
+(* One handle, ANY history of ReadDir(n), Readdirnames(n) (any n, mixed), Seek(0, io.SeekStart), Read and Close on a
+   directory that does not change meanwhile: results and position are those of the specification dir_step - one
+   cursor shared by both reads, n <= 0 = the remaining entries, io.EOF sticky at the end, Seek(0,0) rewinds. *)
+Theorem C02_dir_refine : forall s v c ch m f d op,
+  get (f_heap s) c = Some (NDir ch m) -> win v = false -> drel s c ch f d ->
+  let names := map (@fi_name) (dir_infos (f_heap s) ch) in
+  dproj (snd (dimpl s v f op)) = snd (dir_step names d op)
+  /\ drel s c ch (fst (dimpl s v f op)) (fst (dir_step names d op)).
+Proof. intros. eapply dir_refine_step; eassumption. Qed.
+
+Theorem C02_dir_history : forall s v c ch m ops f d,
+  get (f_heap s) c = Some (NDir ch m) -> win v = false -> drel s c ch f d ->
+  let names := map (@fi_name) (dir_infos (f_heap s) ch) in
+  map dproj (snd (dimpl_run s v f ops)) = snd (dir_run names d ops)
+  /\ drel s c ch (fst (dimpl_run s v f ops)) (fst (dir_run names d ops)).
+Proof. intros. eapply dir_refine_history; eassumption. Qed.
+
+(* a freshly opened handle is in the relation with the initial description *)
+Theorem C02_dir_fresh : forall s c ch f,
+  hd_name f <> [] -> hd_node f = Some c -> hd_dir_infos f = None ->
+  drel s c ch f {| d_cursor := 0; d_closed := false |}.
+Proof. intros. now apply drel_fresh. Qed.
 
 (* the listing holds every entry of the directory exactly once *)
 Theorem C02_dir_each_once : forall h ch,
@@ -213,4 +236,27 @@ Definition repaired_witnesses : list (list fop) :=
 Example C02_repaired_agree : forallb (fun ops => match first_kf empty_state ops 0 with None => true | Some _ => false end)
                                repaired_witnesses = true
   /\ map impl_results repaired_witnesses = map spec_results repaired_witnesses.
+Proof. vm_compute. auto. Qed.
+
+(* ---- directory handles, non-vacuity: /tmp/d with two entries, one handle, the former deviations in one history --- *)
+Definition P_d : str := [47; 116; 109; 112; 47; 100]%N.                 (* /tmp/d *)
+Definition w_dir : world :=
+  Eval vm_compute in
+    fst (wrun (init_world_linux 18)
+           [CMkdir 0 P_d 493; CWriteFile 0 (P_d ++ [47; 120]%N) [] 420; CWriteFile 0 (P_d ++ [47; 121]%N) [] 420;
+            COpenFile 0 P_d 0 0]).
+Definition hist_dir : list dop :=
+  [DReaddirnames 1; DReadDir 1; DReadDir 1; DReadDir 1; DReaddirnames (-1); DRewind; DReadDir 1; DRewind; DReadDir (-1);
+   DReadDir (-1); DReadDir 2; DRead 0; DRead 1; DClose; DReadDir 1; DRewind].
+Example C02_dir_example :
+  match nth_error (w_handles w_dir) 0, nth_error (w_views w_dir) 0 with
+  | Some f, Some v =>
+      map (dproj) (snd (dimpl_run (w_fs w_dir) v f hist_dir))
+      = snd (dir_run [[120]; [121]]%N {| d_cursor := 0; d_closed := false |} hist_dir)
+      /\ snd (dir_run [[120]; [121]]%N {| d_cursor := 0; d_closed := false |} hist_dir)
+         = [D_Batch [[120]]%N None; D_Batch [[121]]%N None; D_Batch [] (Some X_EOF); D_Batch [] (Some X_EOF);
+            D_Batch [] None; D_Int 0; D_Batch [[120]]%N None; D_Int 0; D_Batch [[120]; [121]]%N None;
+            D_Batch [] None; D_Batch [] (Some X_EOF); D_Data 0 None; D_Err X_ISDIR; D_Ok; D_Err X_Closed; D_Err X_Closed]
+  | _, _ => False
+  end.
 Proof. vm_compute. auto. Qed.
